@@ -2377,6 +2377,16 @@ vbi_decode_teletext(vbi_decoder *vbi, uint8_t *buffer)
 			case PAGE_FUNCTION_LOP:
 				memcpy(cvtp->data.unknown.raw[0], p, 40);
 
+				/* A page cached without enhancement data does
+				   not include the triplet array (see
+				   cache_page_size()). As for a new page it
+				   must start out with termination markers,
+				   zeros are triplets. */
+				if (0 == vtp->x26_designations
+				    && 0 == (vtp->x28_designations & 0x13))
+					memset(cvtp->data.enh_lop.enh, 0xFF,
+					       sizeof(cvtp->data.enh_lop.enh));
+
 			default:
 				break;
 			}
